@@ -100,8 +100,8 @@ pub fn run(v: &Value, rep: &mut Report) -> Result<(), String> {
     let budget = Duration::from_millis(v.get("budget_ms").and_then(|x| x.as_u64()).unwrap_or(20000));
     let exclude: Vec<String> = v.get("exclude").and_then(|x| x.as_array()).map(|a| a.iter().filter_map(|s| s.as_str().map(String::from)).collect()).unwrap_or_default();
     let require: Vec<String> = v.get("require").and_then(|x| x.as_array()).map(|a| a.iter().filter_map(|s| s.as_str().map(String::from)).collect()).unwrap_or_default();
-    // an order carrying a price different from the level's is inside the domain of the restore properties only
-    let alpha = alphabet(prop == "C10" || prop == "C11");
+    // add_order accepts an order carrying a price different from the level's: it is inside every property's domain except C15's value clause
+    let alpha = alphabet(prop != "C15");   // C15's value clause is stated for levels whose orders carry the level's price
     let t0 = Instant::now();
     let current: Arc<Mutex<Option<Value>>> = crate::CURRENT.clone();
     let mut tried: u64 = 0;
